@@ -1,4 +1,5 @@
 import KitProofs.Lemmas.CronSched
+import KitModel.CronSchedShape
 /-!
 Property C05 — cron: each job starts once per activation, never early; Stop/Remove are clean.
 
@@ -16,6 +17,77 @@ Vocabulary: the ghost `log` records every computation of a `Next`
 -/
 namespace Kit.CronSched.C05
 open Kit.CronSched
+
+
+/-! ### T1: the source shape the model is stated over -/
+
+section T1
+open Kit.Generated.C05
+
+/-- `source_shape_as_modelled`: the facts regenerated from cron/cron.go's working tree are the
+ones the model is written against — the canonical text of every modelled function equals the
+listing in `KitModel/CronSchedShape.lean`; the four request channels are unbuffered (every API
+call on a running Cron is a rendezvous with the loop's `select`); `now` is read at start-up, in
+the add and remove branches and nowhere else (not in snapshot/stop, not hoisted to the top of
+the loop); sort before arming; no timer iff empty or head zero, else duration
+`entries[0].Next.Sub(now)`; the five select cases; snapshot `continue`s, stop drains and
+returns, every other branch stops and drains the timer and re-arms; the wake-up loop breaks at
+`e.Next.After(now) || e.Next.IsZero()` and does startJob, `Prev = Next`,
+`Next = Schedule.Next(now)` in that order; Stop sends on `stop` iff running, then clears
+`running`, and its context is cancelled after `jobWaiter.Wait()`; startJob does `Add(1)` before
+`go` and defers `Done`; the job waiter is the counter that releases every waiter when the count
+reaches zero; the two hook sites. -/
+theorem source_shape_as_modelled :
+    (src_run = Shape.run ∧ src_startJob = Shape.startJob ∧ src_Stop = Shape.Stop ∧
+     src_Schedule = Shape.Schedule ∧ src_Remove = Shape.Remove ∧ src_Entries = Shape.Entries ∧
+     src_Start = Shape.Start ∧ src_Run = Shape.Run ∧ src_now = Shape.nowFn ∧
+     src_removeEntry = Shape.removeEntry ∧ src_entrySnapshot = Shape.entrySnapshot ∧
+     src_Less = Shape.Less ∧ src_waiterAdd = Shape.waiterAdd ∧ src_waiterDone = Shape.waiterDone ∧
+     src_waiterWait = Shape.waiterWait) ∧
+    (capAdd = 0 ∧ capStop = 0 ∧ capSnapshot = 0 ∧ capRemove = 0) ∧
+    (bootNowFromClock = true ∧ bootNextFromNow = true ∧ armRefreshesNow = false ∧
+     addRefreshesNow = true ∧ removeRefreshesNow = true ∧ snapshotRefreshesNow = false ∧
+     stopRefreshesNow = false) ∧
+    (armSortsFirst = true ∧ noTimerWhenEmptyOrHeadZero = true ∧ timerDurationHeadNextSubNow = true) ∧
+    (selectCases = [.timer, .add, .snapshot, .stop, .remove] ∧ timerCaseBindsNow = true ∧
+     timerCaseClearsTimer = true ∧ snapshotContinues = true ∧ stopDrainsTimer = true ∧
+     stopReturns = true ∧ postSelectStopsAndDrainsTimer = true) ∧
+    (wakeBreakAfterNowOrZero = true ∧ wakeOrderStartPrevNext = true ∧ wakeNextArg = .now) ∧
+    (stopLocks = true ∧ stopSendsIfRunning = true ∧ stopClearsRunningAfterSend = true ∧
+     stopCtxCancelledAfterWait = true ∧ startJobAddBeforeGo = true ∧ startJobDoneDeferred = true ∧
+     jobWaiterKind = .counter ∧ doneReleasesWaitersAtZero = true ∧ waitReturnsAtZero = true) ∧
+    (scheduleSendsWhenRunning = true ∧ removeSendsWhenRunning = true ∧
+     entriesAsksWhenRunning = true ∧ startSpawnsRun = true ∧ lessZeroLast = true) ∧
+    hookSites.length = 2 := by
+  refine ⟨⟨rfl, rfl, rfl, rfl, rfl, rfl, rfl, rfl, rfl, rfl, rfl, rfl, rfl, rfl, rfl⟩, ?_, ?_, ?_, ?_, ?_, ?_, ?_, ?_⟩ <;>
+    decide
+
+/-- The model's add branch, stated over the regenerated facts, reads the clock *at the add*: the
+new entry's `Next` is `S sid (clock at that step)`, the loop variable becomes that clock value,
+and exactly this is recorded (`a₀ = nxt(t_add)` with `t_add` the clock, not an older `now`). -/
+theorem add_computed_from_clock_at_add (S : Scheds) (s s' : State) (id sid : Nat)
+    (hpc : s.pc = .refresh (some (id, sid))) (h : step S s .refresh = some s') :
+    s'.now = s.clock ∧ s'.log = Rec.sched id sid s.clock (S sid s.clock) :: s.log ∧
+    s'.entries = s.entries ++ [{ id := id, sid := sid, next := S sid s.clock, prev := 0 }] := by
+  rcases step_refresh_inv h with ⟨hpc', _⟩ | ⟨id', sid', hpc', rfl⟩
+  · rw [hpc] at hpc'; cases hpc'
+  · rw [hpc] at hpc'; cases hpc'
+    exact ⟨rfl, rfl, rfl⟩
+
+/-- The remove branch refreshes `now` from the clock; arming does not touch `now`. -/
+theorem remove_refreshes_now_arm_keeps_it (S : Scheds) (s s' : State) :
+    (s.pc = .refresh none → step S s .refresh = some s' → s'.now = s.clock) ∧
+    (step S s .arm = some s' → s'.now = s.now) := by
+  constructor
+  · intro hpc h
+    rcases step_refresh_inv h with ⟨_, rfl⟩ | ⟨_, _, hpc', _⟩
+    · rfl
+    · rw [hpc] at hpc'; cases hpc'
+  · intro h
+    obtain ⟨_, rfl⟩ := step_arm_inv h
+    rfl
+
+end T1
 
 /-! ### starts_chain -/
 
